@@ -7,7 +7,7 @@ encoded by the REFERENCE encoder (pv/genref.py); the code emitted for R must dec
 (known fields with unchanged wire type kept, everything else ignored, defaults filled, enum numbers kept),
 leave exactly the trailing bytes, and fail -- with an error, never a panic or a wrong value -- exactly when
 `view` says a required field is absent or a union carries no known variant / more than one."""
-from .. import gengen, genref, genrun, genevo, gencheck
+from .. import gengen, genref, genrun, genevo, gencheck, gencorr
 from ..gencheck import have_property_file, run_check
 
 PROP = 'C08'
@@ -130,7 +130,12 @@ def extra(cases, outs):
 
 
 def run(chk, replay=None):
-    return run_check(chk, replay, PROP, gen_cases, evaluate,
+    def post(gb, cases, outs):
+        # three-way: Coq view = Python view = emitted code.  Cases on which the two SPECIFICATIONS disagree are a broken check
+        # (reported by three_way_view), not a violation of the code: the code oracle is applied to the others only
+        broken = gencorr.three_way_view(chk, gb, cases, outs)
+        return [(c, why, cls, o) for c, o in zip(cases, outs) if c['line'] not in broken for why, cls in (evaluate(gb, c, o) or [])]
+    return run_check(chk, replay, PROP, gen_cases, lambda gb, c, o: [],
                      rule="every struct / exception / union / synthesised service type of the corpus as READER x writer schemas obtained "
                           "by 1-4 random edits (add fields of every wire type incl. containers and structs at any position and id, remove, "
                           "retype to a different wire type, reorder, flip requiredness, add / remove / retype union variants) on the types "
@@ -138,4 +143,4 @@ def run(chk, replay=None):
                           "binary_le, compact, unchecked} sync + async schedules; plus, directed, an ignored bool / i32 (thorough: six types) field written "
                           "immediately before each known field; plus per union: empty message, two known variants; "
                           "expected result = view W R v computed independently (pv/genevo.py); distinct by SHA-1 of the case line",
-                     extra_dist=extra)
+                     extra_dist=extra, post=post)
